@@ -1360,6 +1360,7 @@ def search(ctx):
                              {"kind": "corpus", "fmt": fmt, "file": p.name, "frame": i})
             for sig, what, inp in check_cuts_and_corruptions(ctx, fmt, lines, len(starts), p.name, starts=starts):
                 ctx.fail(sig, what, inp)
+    search_numeric_fields(ctx)
     search_fchk(ctx)
     search_fchk_synthetic(ctx)
 
@@ -1423,6 +1424,81 @@ def check_corruption(fmt, lines, cl, nf):
             return ("corrupt-frame-silent-end", f"frame {bad} corrupted: the sequence ends after {len(got)} frames "
                     "without LoadError")
     return None
+
+
+_NUM_TOKEN = __import__("re").compile(r"[-+]?\d+\.\d+(?:[eE][-+]?\d+)?|[-+]?\d+")
+
+
+def _numeric_part(o):
+    """The numeric content of a loaded frame: int/float arrays and scalars of the object and of its `extra` dict."""
+    import attrs
+
+    out = {}
+    for f in attrs.fields(type(o)):
+        v = getattr(o, f.name)
+        items = [(f.name, v)] if not isinstance(v, dict) else [(f"{f.name}.{k}", x) for k, x in v.items()]
+        for name, x in items:
+            if isinstance(x, np.ndarray) and x.dtype.kind in "fiu":
+                out[name] = x.tolist()
+            elif isinstance(x, (int, float)) and not isinstance(x, bool):
+                out[name] = x
+    return out
+
+
+def garble_numeric_field(rng, fmt, lines, starts, full):
+    """Pick a number printed in some frame.  If replacing one of its digits by another digit changes the numeric
+    content of that frame (so the reader does read it as a number), return the file with that digit replaced by
+    a letter: (lines, frame index, description); else None."""
+    k = rng.randrange(len(starts))
+    a = starts[k]
+    b = starts[k + 1] if k + 1 < len(starts) else len(lines)
+    i = rng.randrange(a, b)
+    ms = list(_NUM_TOKEN.finditer(lines[i].rstrip("\n")))
+    if not ms:
+        return None
+    if fmt == "mol2":
+        sect = next((lines[j].split()[0] for j in range(i, a - 1, -1) if lines[j].startswith("@<TRIPOS>")), "")
+        if sect == "@<TRIPOS>BOND":
+            ms = ms[:3]  # the fourth column is a SYBYL bond-type symbol (1, 2, 3, am, ar, du, un, nc), not a number
+    m = rng.choice(ms)
+    tok = m.group()
+    j = rng.choice([q for q, c in enumerate(tok) if c.isdigit()])
+    alt = tok[:j] + str((int(tok[j]) + 1) % 10 or 1) + tok[j + 1:]
+    cl = list(lines)
+    cl[i] = lines[i][:m.start()] + alt + lines[i][m.end():]
+    got, final = impl_load_many(fmt, cl)
+    if final != "done" or len(got) != len(full) or _numeric_part(got[k][4]) == _numeric_part(full[k][4]):
+        return None
+    cl = list(lines)
+    cl[i] = lines[i][:m.start()] + tok[:j] + "x" + tok[j + 1:] + lines[i][m.end():]
+    return cl, k, f"line {i - a} of frame {k}: {tok!r} -> {tok[:j] + 'x' + tok[j + 1:]!r}"
+
+
+def search_numeric_fields(ctx):
+    """corruption of a single numeric field: a number the reader demonstrably reads (changing a digit changes the
+    frame's numbers) made unreadable must raise LoadError when its frame is reached — never a made-up value."""
+    rng = ctx.rng
+    for fmt in LOADERS:
+        for it in range(ctx.n(10, 80) * (3 if ctx.escalated else 1)):
+            nf = rng.choice([2, 3, 4])
+            lines, meta, frames = make_file(rng, fmt, nf)
+            starts = frame_spans(fmt, lines)
+            full, ffinal = impl_load_many(fmt, lines)
+            if ffinal != "done" or len(full) != nf or len(starts) != nf:
+                continue
+            for _ in range(ctx.n(20, 40)):
+                g = garble_numeric_field(rng, fmt, lines, starts, full)
+                if g is None:
+                    ctx.count(f"search-numeric-field:{fmt}", [fmt, it, _], "not-a-read-number", nontrivial=False)
+                    continue
+                cl, k, desc = g
+                got, final = impl_load_many(fmt, cl)
+                ok = final != "done" and not final.startswith("Other") and len(got) <= k
+                ctx.count(f"search-numeric-field:{fmt}", [fmt, cl], "raised" if ok else "accepted")
+                if not ok:
+                    ctx.fail(f"load_many:{fmt}:unreadable-number-accepted",
+                             f"{desc}: {len(got)} frames yielded, outcome {final}; expected LoadError at frame {k}",
+                             {"kind": "file-short", "fmt": fmt, "lines": cl, "bad": k})
 
 
 def search_fchk(ctx):
